@@ -36,6 +36,8 @@ type Prog struct {
 	recTemplates map[string]*recTemplate
 	mu        sync.Mutex
 	nonlinearDef map[string]bool
+	recBuilding  map[string]bool
+	recHeapKeys  map[string][]heapParam
 }
 
 func pkgKeyOf(path string) (string, bool) {
